@@ -123,6 +123,27 @@ fn typeset(font: &Font, text: &str, shape: u8) -> Vec<H> {
     if shape == 0 {
         return list;
     }
+    if shape >= 7 {
+        // the node that terminates the last word (TeX §899)
+        let z = common::Scaled(65536);
+        let node: H = match shape {
+            7 => ds::Kern { width: z, kind: ds::KernKind::Explicit }.into(),
+            8 => ds::Kern { width: z, kind: ds::KernKind::Accent }.into(),
+            9 => ds::Kern { width: z, kind: ds::KernKind::Math }.into(),
+            10 => H::Rule(ds::Rule { height: z, width: z, depth: common::Scaled(0) }),
+            11 => H::HBox(ds::HBox::default()),
+            12 => H::VBox(ds::VBox::default()),
+            13 => H::Math(ds::Math::Before),
+            14 => H::Math(ds::Math::After),
+            15 => H::Penalty(ds::Penalty(0)),
+            16 => H::Mark(ds::Mark { list: vec![] }),
+            17 => H::Adjust(ds::Adjust { list: vec![] }),
+            18 => H::Discretionary(ds::Discretionary::default()),
+            _ => ds::Kern { width: z, kind: ds::KernKind::Normal }.into(),
+        };
+        list.push(node);
+        return list;
+    }
     let a_glue = list.iter().find(|h| matches!(h, H::Glue(_))).cloned();
     let Some(glue) = a_glue else { return list };
     let after_glue = |extra: H, list: Vec<H>| -> Vec<H> {
@@ -894,7 +915,7 @@ fn main() {
 
     // ---------------- F1: cmr10, vocabulary x templates x pattern sets x minima
     let vocab: Vec<String> = {
-        let mut v: Vec<String> = ["difficult", "office", "shuffling", "waffle", "affliction", "fifty", "efficient", "Contents", "hyphenation", "a", "fi", "baffling", "stiffly", "chaff", "flyleaf", "halfback", "shelfful", "x-y", "AVATAR", "e.g.", "offline", "fluffiest", "raffish", "offhand", "OFFICE", "Office", "well-known", "don't", "fjord", "afford", "cliffs", "fflfi", "table", "project", "association", "typewriter", "WAVY", "ff", "3.0", "--", "``office''", "naïve", "café.", "éclair", "𝐚ffine", "office—suffix", "difficult\u{a0}"].iter().map(|s| s.to_string()).collect();
+        let mut v: Vec<String> = ["difficult", "office", "shuffling", "waffle", "affliction", "fifty", "efficient", "Contents", "hyphenation", "a", "fi", "baffling", "stiffly", "chaff", "flyleaf", "halfback", "shelfful", "x-y", "AVATAR", "e.g.", "offline", "fluffiest", "raffish", "offhand", "OFFICE", "Office", "well-known", "don't", "fjord", "afford", "cliffs", "fflfi", "table", "project", "association", "typewriter", "WAVY", "ff", "3.0", "--", "``office''", "table3", "present77", "project3", "algorithm2024", "3table", "naïve", "café.", "éclair", "𝐚ffine", "office—suffix", "difficult\u{a0}"].iter().map(|s| s.to_string()).collect();
         v.extend(long_words());
         // every word of plain_tex_exceptions.txt, in lower case and capitalised (punctuation comes from the templates)
         for e in pe.split_whitespace() {
@@ -929,6 +950,9 @@ fn main() {
             let case = Case { program: vec![], text: templates_r[d[1] as usize].replace("{}", w), patterns: ps.clone(), lhm: *l, rhm: *r, shape: 0, exceptions: vec![], warmup: None, custom_patterns: None };
             if !case.text.is_ascii() {
                 acc.count("text_with_a_non_ascii_character");
+            }
+            if case.text.as_bytes().windows(2).any(|w| w[0].is_ascii_alphabetic() && w[1].is_ascii_digit()) {
+                acc.count("letters_immediately_followed_by_digits");
             }
             if liang::norm_min(*l as i64) + liang::norm_min(*r as i64) >= 63 {
                 acc.count("minima_sum_63_or_more");
@@ -1121,6 +1145,19 @@ fn main() {
             judge(idx, &case, cmr_r, hy, lang, acc);
         });
     }
+    // ---------------- F2g: every node kind as the node that terminates the word (TeX §899)
+    {
+        let words = ["difficult", "office", "Contents", "table"];
+        let (nw, nsh, nh) = (words.len() as u64, 12u64, hys.len() as u64);
+        let (hys_r, env_r, cmr_r) = (&hys, &env, &cmr);
+        ctx.family("cmr10-terminating-node", &format!("cmr10: 'x W' for {nw} words with one node appended directly after the word: explicit / accent / math kern, rule, hbox, vbox, math-on, math-off, penalty, mark, adjust, empty discretionary (TeX §899: a non-font kern, penalty, mark, adjust let the word be hyphenated; rule, boxes, math, discretionary do not) x all {nh} (pattern set, minima) settings"), nw * nsh * nh, |idx, acc| {
+            let d = vcore::digits(idx, &[nw, nsh, nh]);
+            let (ps, l, r, hy) = &hys_r[d[2] as usize];
+            let case = Case { program: vec![], text: format!("x {}", words[d[0] as usize]), patterns: ps.clone(), lhm: *l, rhm: *r, shape: d[1] as u8 + 7, exceptions: vec![], warmup: None, custom_patterns: None };
+            acc.count("word_terminated_by_each_node_kind");
+            judge(idx, &case, cmr_r, hy, if ps == "plain" { &env_r.plain } else { &env_r.every }, acc);
+        });
+    }
     // ---------------- F3/F4/F5: synthetic programs
     let all_kinds: Vec<u8> = (0..8).collect();
     let inserted: Vec<u8> = ctx.pick(vec![b'a', b'b', b'c'], vec![b'a', b'b', b'c', b'-']);
@@ -1203,6 +1240,8 @@ fn main() {
     ctx.require("list_hyphenated_again_after_insert_exception", "one hyphenator hyphenates a list, gets an exception, hyphenates a second list");
     ctx.require("same_capitalised_word_hyphenated_before_and_after_insert_exception", "the same spelling with capitals is hyphenated before and after an exception for its word is inserted");
     ctx.require("list_word_matched_by_pattern_with_16_or_more_leading_letters", "a word in a list is cut by a pattern whose digit follows 16 or more unscored letters (the 16-zero run byte of the op stream)");
+    ctx.require("word_terminated_by_each_node_kind", "a word directly followed by each kind of node (kerns of every kind, rule, boxes, math, penalty, mark, adjust, discretionary)");
+    ctx.require("letters_immediately_followed_by_digits", "a run of letters directly followed by digits of the same font (table3)");
     ctx.require("exception_longer_than_longest_pattern", "a word whose exception entry has more letters than the longest pattern plus one is hyphenated in a list");
     ctx.require("exception_redeclared_last_wins", "a word whose exception was declared before with other breaks (plain TeX's entry, or an earlier insert) is hyphenated in a list");
     ctx.require("word_split_by_a_font_change", "a run of letters changes font in the middle (TeX tries only the letters of the first font)");
